@@ -679,4 +679,93 @@ theorem merge_acct (b? : Option BAcct) (t : Transition) (c : CacheAcct) (Pi : Op
       · have : st5 t.status = true := (trOK_shape _ _ _ _ ht.ok).1
         rw [show t.presentBundleAccount.status = t.status from rfl, this] at h; cases h
 
+/-! ## wiping reverts and destroyed statuses (used by C18) -/
+
+theorem filterEmpty_eq_some (r r' : ARevert) (h : filterEmpty (some r) = some r') : r' = r := by
+  unfold filterEmpty at h
+  by_cases he : r.isEmpty = true
+  · simp [he] at h
+  · simp [he] at h; exact h.symm
+
+/-- a wiping revert is recorded only when the account moves from a non-destroyed bundle status into a
+destroyed one (a closed fact about `update_and_create_revert`, no invariant needed) -/
+theorem uacr_wipe (acc : BAcct) (t : Transition) (acc' : BAcct) (r : ARevert)
+    (h : updateAndCreateRevert acc t = some (acc', some r)) (hw : r.wipe = true) :
+    t.status.wasDestroyed = true ∧ acc.status.wasDestroyed = false := by
+  unfold updateAndCreateRevert at h
+  cases hts : t.status <;> cases hbs : acc.status <;> cases hwd : t.wasDestroyed <;>
+    simp [hts, hbs, hwd, newSelfdestructedFromBundle, newSelfdestructedAgain, newSelfdestructed, Option.map,
+      Status.wasDestroyed] at h ⊢ <;>
+    (try first
+      | (obtain ⟨_, h2⟩ := h; have := filterEmpty_eq_some _ _ h2; rw [this] at hw; simp at hw; done)
+      | (simp [filterEmpty] at h; done))
+
+theorem trOK_wd_mono (s0 s : Status) (nc wd : Bool) (h : trOK s0 s nc wd = true) (h0 : s0.wasDestroyed = true) :
+    s.wasDestroyed = true := by
+  revert h h0
+  cases s0 <;> cases s <;> cases nc <;> cases wd <;> simp [trOK, inv, reach, st5, Status.wasDestroyed]
+
+/-- `merge_acct` plus: a wiping revert leaves a destroyed-family bundle account and is recorded only for an
+address that was absent or not destroyed; a destroyed-family bundle account stays one -/
+theorem merge_acct_wipe (b? : Option BAcct) (t : Transition) (c : CacheAcct) (Pi : Option Info) (Ps : Nat → Nat)
+    (Mi : Option Info) (Ms : Nat → Nat) (Ri : Option Info) (Rs : Nat → Nat)
+    (hb : BInv b? t.prevStatus Pi Ps Mi Ms) (hm : Facts t.prevStatus Mi Ms)
+    (ht : TInv t c Mi Ms Rs) (hc : CInv c Ri Rs) :
+    ∃ b?' rev, oneAcct b? t = some (b?', rev) ∧ BInv b?' c.status Pi Ps Ri Rs ∧
+      RevSem rev t.prevStatus Ps Mi Ms Ri Rs ∧
+      (∀ r, rev = some r → r.wipe = true →
+        (∃ o', b?' = some o' ∧ o'.status.wasDestroyed = true) ∧ (∀ o, b? = some o → o.status.wasDestroyed = false)) ∧
+      (∀ o, b? = some o → o.status.wasDestroyed = true → ∃ o', b?' = some o' ∧ o'.status.wasDestroyed = true) := by
+  obtain ⟨b?', rev, h1, h2, h3⟩ := merge_acct b? t c Pi Ps Mi Ms Ri Rs hb hm ht hc
+  refine ⟨b?', rev, h1, h2, h3, ?_, ?_⟩
+  · intro r hr hw
+    subst hr
+    cases b? with
+    | some acc =>
+      simp only [oneAcct] at h1
+      cases hu : updateAndCreateRevert acc t with
+      | none => rw [hu] at h1; cases h1
+      | some x =>
+        obtain ⟨acc', rv⟩ := x
+        rw [hu] at h1
+        simp only [Option.map, Option.some.injEq, Prod.mk.injEq] at h1
+        obtain ⟨q1, q2⟩ := h1
+        subst q1
+        have hu' : updateAndCreateRevert acc t = some (acc', some r) := by rw [hu, q2]
+        obtain ⟨w1, w2⟩ := uacr_wipe acc t acc' r hu' hw
+        refine ⟨⟨acc', rfl, ?_⟩, fun o ho => by injection ho with ho; rw [← ho]; exact w2⟩
+        have := h2.1.status
+        rw [this, ← ht.status]; exact w1
+    | none =>
+      simp only [oneAcct] at h1
+      cases hu : updateAndCreateRevert t.originalBundleAccount t with
+      | none => rw [hu] at h1; cases h1
+      | some x =>
+        obtain ⟨acc', rv⟩ := x
+        rw [hu] at h1
+        cases rv with
+        | none => simp [Option.map] at h1
+        | some r' =>
+          simp only [Option.map, Option.some.injEq, Prod.mk.injEq] at h1
+          obtain ⟨q1, q2⟩ := h1
+          subst q1
+          have hw' : r'.wipe = true := by rw [q2]; exact hw
+          obtain ⟨w1, _⟩ := uacr_wipe _ t acc' r' hu hw'
+          exact ⟨⟨t.presentBundleAccount, rfl, w1⟩, fun o ho => by cases ho⟩
+  · intro o ho hwd
+    subst ho
+    simp only [oneAcct] at h1
+    cases hu : updateAndCreateRevert o t with
+    | none => rw [hu] at h1; cases h1
+    | some x =>
+      rw [hu] at h1
+      simp only [Option.map, Option.some.injEq, Prod.mk.injEq] at h1
+      obtain ⟨q1, _⟩ := h1
+      subst q1
+      refine ⟨x.1, rfl, ?_⟩
+      have hs := h2.1.status
+      have h0 : t.prevStatus.wasDestroyed = true := by rw [← hb.1.status]; exact hwd
+      rw [hs, ← ht.status]
+      exact trOK_wd_mono _ _ _ _ ht.ok h0
+
 end Revm.Proofs.Bundle
